@@ -65,6 +65,9 @@ type Ctx struct {
 	Rule *Rule
 	Obs  []Ob
 	Fns  map[string]bool // functions analysed (for evidence)
+	// Only, when set, restricts the rule to obligations about functions it accepts (used when a clause shared
+	// by two properties is relevant to a property only at some of its sites).
+	Only func(fnName string) bool
 }
 
 func (c *Ctx) key(fn *ssa.Function, construct string) string {
@@ -72,6 +75,9 @@ func (c *Ctx) key(fn *ssa.Function, construct string) string {
 }
 
 func (c *Ctx) add(fn *ssa.Function, construct string, v Verdict, pos token.Pos, msg string, path []string) {
+	if c.Only != nil && fn != nil && !c.Only(FnName(fn)) {
+		return
+	}
 	if fn != nil {
 		c.Fns[FnName(fn)] = true
 	}
